@@ -13,6 +13,7 @@ import AgVerif.Proof.InsnFieldsFull
 import AgVerif.Proof.InsnEdAll
 import AgVerif.Proof.InsnDecValid
 import AgVerif.Proof.PyInsn
+import AgVerif.Proof.PyInsnRaw
 import AgVerif.Proof.InsnLits
 namespace AgVerif.C01
 open AgVerif.Insn AgVerif.Gen AgVerif.Spec
@@ -271,6 +272,14 @@ theorem source_constructors_agree (bs : List Nat) (hb : ∀ b ∈ bs, b < 256) :
     DecodeAgrees .f45cc init_45cc ["A", "BBBB", "C", "D", "E", "F", "G", "HHHH"] bs ∧
     DecodeAgrees .f4rcc init_4rcc ["AA", "BBBB", "CCCC", "HHHH"] bs :=
   PyInsn.source_constructors_agree bs hb
+
+/-- Tie by translation, encoder side: for each of the 36 classes, `Instruction<fmt>.get_raw` as translated from the
+    Python source on every run (AgVerif.Gen.PyInsnRaw), applied to any object the constructor builds from values in
+    struct range, passes to `struct.pack` exactly the argument tuple of the model's `packArgs` (and the struct strings
+    are those of Gen.Opcodes.packFmt: `PyInsn.pack_formats_agree`).  The statement is the one of
+    `PyInsn.source_get_raw_agree` in Proof/PyInsnRaw.lean (a 36-fold conjunction, re-exported verbatim). -/
+theorem source_get_raw_agree : type_of% PyInsn.source_get_raw_agree :=
+  PyInsn.source_get_raw_agree
 
 /-! ### non-vacuity -/
 
